@@ -80,6 +80,12 @@ pub fn uci_talk() -> anyhow::Result<()> {
                     if search_is_running.load(Relaxed) {
                         println!("error: search is still running, enter 'stop' to stop it");
                     } else {
+                        // The flag may already be down (timer, depth limit) while the previous search
+                        // thread is still about to start or to answer: let it finish first, otherwise
+                        // two threads would compete for the same game
+                        if let Some(thread) = search_thread.take() {
+                            thread.join().unwrap();
+                        }
                         // Create new bool such that if the old sleep threaed is still runnning
                         // it won't affect this new search
                         search_is_running = Arc::new(AtomicBool::new(false));
